@@ -57,7 +57,7 @@ fn applies_same(a: &LayerEnv, b: &LayerEnv) -> Option<String> {
 pub fn env_files(thorough: bool) -> Report {
     let mut r = Report::new(
         "witness search on a real tempdir: every pair (old env, new env) of layer environments with up to K entries over 5 scopes (all, build, launch, process web, process worker) x 5 behaviours x names {A, B.c, non-UTF-8, .hidden.var} x values {empty, bytes}, written successively into one layer directory holding an unrelated file: afterwards the env directories hold exactly the CNB layout of the NEW env, the unrelated file is untouched, and read_from_layer_dir applies identically to the new env; non-trivial = pairs where old and new differ",
-        if thorough { "K = 2 entries per environment" } else { "K = 1 entry per environment, plus the empty environment and three multi-scope environments (launch + two process types, two process types, all five scopes)" },
+        if thorough { "K <= 2 entries per new environment (every 29th pair), old environments: one per scope x 2 plus every 9th one-entry environment" } else { "K = 1 entry per environment, plus the empty environment and three multi-scope environments (launch + two process types, two process types, all five scopes)" },
     );
     let names: Vec<Vec<u8>> = vec![b"A".to_vec(), b"B.c".to_vec(), vec![0xff, b'x'], b".hidden.var".to_vec()];
     let vals: Vec<Vec<u8>> = vec![vec![], vec![b'v', 0xfe, b'\n']];
@@ -69,9 +69,9 @@ pub fn env_files(thorough: bool) -> Report {
     envs.push(vec![(2, 2, 0, 1), (3, 3, 0, 1), (4, 0, 1, 0)]);
     envs.push(vec![(3, 2, 0, 1), (4, 2, 0, 1)]);
     envs.push(vec![(0, 1, 0, 1), (1, 4, 0, 1), (2, 0, 2, 0), (3, 3, 1, 1), (4, 2, 2, 1)]);
-    if thorough { for (i, a) in singles.iter().enumerate() { for b in singles.iter().skip(i + 1).step_by(7) { if (a.0, a.1, a.2) != (b.0, b.1, b.2) { envs.push(vec![*a, *b]); } } } }
+    if thorough { for (i, a) in singles.iter().enumerate() { for b in singles.iter().skip(i + 1).step_by(29) { if (a.0, a.1, a.2) != (b.0, b.1, b.2) { envs.push(vec![*a, *b]); } } } }
     // old environments: a small covering subset (every scope once) to keep the quick tier fast
-    let olds: Vec<Vec<Entry>> = { let mut v = vec![vec![]]; for s in 0..5u8 { v.push(vec![(s, 3, 0, 1)]); v.push(vec![(s, 0, 1, 0)]); } if thorough { v = envs.clone(); } v };
+    let olds: Vec<Vec<Entry>> = { let mut v = vec![vec![]]; for s in 0..5u8 { v.push(vec![(s, 3, 0, 1)]); v.push(vec![(s, 0, 1, 0)]); } if thorough { for e in singles.iter().step_by(9) { v.push(vec![*e]); } } v };   // thorough: the covering subset plus every 9th one-entry environment as the OLD environment
     for old in &olds {
         for new in &envs {
             r.evaluations += 1;
